@@ -88,7 +88,9 @@ def smear(case, particles, add, prior=True):
         with warnings.catch_warnings(), np.errstate(all="ignore"):
             warnings.simplefilter("ignore")
             try:
-                L.add_particle_data([mk_particle(p) for p in particles], case["sigma"], case["quantity"], case["kernel"], add)
+                # the flag as callers spell it: a Python bool, a numpy bool (e.g. the result of a comparison) or 0/1
+                flag = {"np": np.bool_(add), "int": int(bool(add))}.get(case.get("add_spelling"), bool(add))
+                L.add_particle_data([mk_particle(p) for p in particles], case["sigma"], case["quantity"], case["kernel"], flag)
             except Exception as e:
                 return {"status": "err", "err": errname(e), "kern": rec.calls}
     finally:
@@ -244,7 +246,9 @@ def gen_case(rng, small=False):
                       "E": rng.choice([0.5, 1.0, 2.0, 3.25, 10.0]), "charge": rng.choice([-2, -1, 0, 1, 1, 2]),
                       "baryon_number": rng.choice([-1, 0, 1, 1]), "strangeness": rng.choice([-3, -1, 0, 1, 2])})
     case = {"ext": ext, "n": n, "nsig": nsig, "sigma": sigma, "quantity": quantity, "kernel": kernel,
-            "add": rng.random() < 0.4, "particles": parts}
+            "add": rng.random() < 0.5, "particles": parts}
+    if rng.random() < 0.5:
+        case["add_spelling"] = rng.choice(["np", "int"])
     if rng.random() < 0.5 or not parts:
         case["prior"] = [float(rng.choice([0, 0, 1, 2, -1, 0.5])) for _ in range(n[0] * n[1] * n[2])]
     r = rng.random()
@@ -455,7 +459,7 @@ FIXED = [
 
 
 def correspondence(ctx, model_ok=True):
-    ncases = 70 if ctx.quick else 700
+    ncases = 120 if ctx.quick else 900
     cases = []
     corpus = os.path.join(C.VERIF, "corpus", ID)
     if os.path.isdir(corpus):
